@@ -355,6 +355,10 @@ fn exec_op(arena: &'static sync::Arena, tid: usize, op: &Value, next_id: &mut u3
       arena.set_minimum_segment_size(op["v"].as_u64().unwrap() as u32);
       push(json!({"ev": "ret", "t": t, "op": op, "res": {"k": "ok"}}), true);
     }
+    "incdisc" => {
+      arena.increase_discarded(op["v"].as_u64().unwrap() as u32);
+      push(json!({"ev": "ret", "t": t, "op": op, "res": {"k": "ok"}}), true);
+    }
     "clone_drop" => {
       let a2 = arena.clone();
       drop(a2);
